@@ -88,7 +88,12 @@ pub(crate) fn search_dictionary(
         "^{}[অআইঈউঊঋএঐওঔঌৡািীুূৃেৈোৌকখগঘঙচছজঝঞটঠডঢণতথদধনপফবভমযরলশষসহৎড়ঢ়য়ংঃঁ\u{09CD}]{{0,{}}}$",
         word, need_chars_upto
     );
-    let rgx = Regex::new(&regex).unwrap();
+    // The pattern of a very long word can exceed the size limit of the regex engine,
+    // such a word has no dictionary suggestions.
+    let rgx = match Regex::new(&regex) {
+        Ok(rgx) => rgx,
+        Err(_) => return,
+    };
 
     let words = data.get_words_for(table).filter(|i| rgx.is_match(i));
 
